@@ -24,6 +24,11 @@ ASSUMPTIONS = [
 
 
 # ---------------------------------------------------------------- unit-level edits
+# spellings Python's int() / bool conventions would accept but the format (decimal digits; true / false) does not
+BAD_INT_LITERALS = ("abc", "-1", "+7", "1_0", "1.5", "0x1", "1e3", "-0", "\u0663", "\u00b2")  # the last two: str.isdigit() is true for them
+BAD_BOOL_LITERALS = ("yes", "True", "TRUE", "1", "0")
+
+
 def sites(unit):
     """(parent node, index, ctx) for every instruction position, ctx = {'chunked':bool,'case':bool}"""
     out = []
@@ -80,10 +85,12 @@ def unit_edits(unit):
             yield "W13 unnamed field without value", edited(path, lambda par_, i, n: n.attrs.pop("name"))
             if t in ("char", "short", "three", "int", "byte"):
                 yield "W7 length on non-string", edited(path, lambda par_, i, n: n.attrs.__setitem__("length", "2"))
-                yield "W14 named literal of wrong type", edited(path, lambda par_, i, n: setattr(n, "text", "abc"))
+                for bad in BAD_INT_LITERALS:
+                    yield f"W14 named literal of wrong type ({bad!r})", edited(path, lambda par_, i, n, bad=bad: setattr(n, "text", bad))
                 yield "W3 override on integer", edited(path, lambda par_, i, n: n.attrs.__setitem__("type", t + ":short" if t != "short" else "char:int"))
             if t == "bool":
-                yield "W14 named bool literal of wrong type", edited(path, lambda par_, i, n: setattr(n, "text", "yes"))
+                for bad in BAD_BOOL_LITERALS:
+                    yield f"W14 named bool literal of wrong type ({bad!r})", edited(path, lambda par_, i, n, bad=bad: setattr(n, "text", bad))
                 yield "W3 bool override non-integer", edited(path, lambda par_, i, n: n.attrs.__setitem__("type", "bool:string"))
             if t in ("E1", "E2", "E3", "P", "V", "U", "K", "O", "blob"):
                 yield "W14 literal on non-basic type", edited(path, lambda par_, i, n: setattr(n, "text", "1"))
@@ -94,15 +101,18 @@ def unit_edits(unit):
                 yield "W3 override on type without underlying type", edited(path, lambda par_, i, n: n.attrs.__setitem__("type", t + ":char"))
             if t in ("string", "encoded_string"):
                 yield "W6 length names an undeclared field", edited(path, lambda par_, i, n: n.attrs.__setitem__("length", "nope"))
+                yield "W6 length in another digit script", edited(path, lambda par_, i, n: n.attrs.__setitem__("length", "\u0663"))
                 if node.get("length") is None:
                     yield "W14 fixed literal of wrong length", edited(path, lambda par_, i, n: (setattr(n, "text", "hi"), n.attrs.__setitem__("length", "3"), n.attrs.pop("optional", None)))
         if tag == "field" and node.get("name") is None and node.text is not None:
             t = node.get("type")
             yield "W13 optional unnamed field", edited(path, lambda par_, i, n: n.attrs.__setitem__("optional", "true"))
             if t in ("char", "short"):
-                yield "W14 unnamed literal of wrong type", edited(path, lambda par_, i, n: setattr(n, "text", "12a"))
+                for bad in ("12a",) + BAD_INT_LITERALS[1:]:
+                    yield f"W14 unnamed literal of wrong type ({bad!r})", edited(path, lambda par_, i, n, bad=bad: setattr(n, "text", bad))
             if t == "bool":
-                yield "W14 unnamed bool literal of wrong type", edited(path, lambda par_, i, n: setattr(n, "text", "True"))
+                for bad in ("True",) + BAD_BOOL_LITERALS[1:]:
+                    yield f"W14 unnamed bool literal of wrong type ({bad!r})", edited(path, lambda par_, i, n, bad=bad: setattr(n, "text", bad))
             if t == "string" and node.get("length"):
                 yield "W14 literal length mismatch", edited(path, lambda par_, i, n: setattr(n, "text", n.text + "x"))
         if tag == "array":
@@ -112,6 +122,7 @@ def unit_edits(unit):
                     yield f"W9 non-delimited array of unbounded {el}", edited(path, lambda par_, i, n, el=el: n.attrs.__setitem__("type", el))
                 yield "W9 delimited outside chunked (if outside)", edited(path, lambda par_, i, n: n.attrs.__setitem__("delimited", "true"))
             yield "W6 array length names an undeclared field", edited(path, lambda par_, i, n: n.attrs.__setitem__("length", "nope"))
+            yield "W6 array length in another digit script", edited(path, lambda par_, i, n: n.attrs.__setitem__("length", "\u00b2"))
         if tag == "length":
             yield "W8 length without name", edited(path, lambda par_, i, n: n.attrs.pop("name"))
             for bad in ("string", "bool", "E1", "P", "blob"):
@@ -134,6 +145,7 @@ def unit_edits(unit):
                 yield f"W15 switch on {bad_t} field", edited(path, lambda par_, i, n, mk=mk: (par_.kids.insert(i, mk()), n.attrs.__setitem__("field", "zz2")))
             yield "W15 default as first case", edited(path, lambda par_, i, n: n.kids[0].attrs.clear() or n.kids[0].attrs.__setitem__("default", "true"))
             yield "W15 case value not a member / not a number", edited(path, lambda par_, i, n: n.kids[0].attrs.__setitem__("value", "Zzz"))
+            yield "W15 case value in another digit script", edited(path, lambda par_, i, n: n.kids[0].attrs.__setitem__("value", "\u0663"))
             yield "W17 case without value", edited(path, lambda par_, i, n: n.kids[0].attrs.pop("value", None))
             yield "W15 enum ordinal that has a name", edited(path, lambda par_, i, n: n.kids[0].attrs.__setitem__("value", "1") if _switch_is_enum(unit, n) else n.kids[0].attrs.__setitem__("value", "-1"))
             yield "W12 instruction after a switch whose case holds a dummy", edited(path, lambda par_, i, n: (n.kids[0].kids.append(dummy("char", "0")), par_.kids.insert(i + 1, field("zz3", "char"))))
